@@ -339,9 +339,9 @@ FAMILIES = {
 	"C05": [
 		("bit_length", lambda w: w.v.bit_length()), ("to_bytes", lambda w: w.v.to_bytes(4, "big")), ("conjugate", lambda w: w.v.conjugate()), ("is_integer", lambda w: w.f.is_integer()),
 		("hex", lambda w: w.f.hex()), ("year", lambda w: w.dv.year), ("isoformat", lambda w: w.dv.isoformat()), ("upper", lambda w: w.sv.upper()), ("v+1", lambda w: w.v + 1),
-		("v*f", lambda w: w.v * w.f), # (date + int days is serif's own extension; once the vector has been promoted to datetime in place Python defines no "+ int" and the
-		# statement says nothing, so these two are only evaluated while the kind is still date)
-		("dv+1", lambda w: w.dv + 1 if w.dv.schema().kind is date else None), ("dv+v", lambda w: w.dv + Vector([1] * w.n) if w.dv.schema().kind is date else None), ("2-v", lambda w: 2 - w.v), ("t.a*2", lambda w: w.t[_gname(w), _bname(w)] * 2),
+		("v*f", lambda w: w.v * w.f), # (date + int days: on a vector promoted to datetime in place the live object must answer as the rebuilt
+		# datetime vector does - it used to apply the day arithmetic of dates to the datetimes and drop their time of day, F44)
+		("dv+1", lambda w: w.dv + 1), ("dv+v", lambda w: w.dv + Vector([1] * w.n)), ("2-v", lambda w: 2 - w.v), ("t.a*2", lambda w: w.t[_gname(w), _bname(w)] * 2),
 		("real", lambda w: w.v.real), ("as_integer_ratio", lambda w: w.f.as_integer_ratio()),
 		("f+1.0", lambda w: w.f + 1.0), ("1.5*f", lambda w: 1.5 * w.f), ("f/f", lambda w: w.f / (w.f + 10.0)), ("v.is_integer", lambda w: w.v.is_integer()), ("f.real", lambda w: w.f.real), ("f.imag", lambda w: w.f.imag),
 		("dv+timedelta", lambda w: w.dv + __import__("datetime").timedelta(hours=6)), ("dv-timedelta", lambda w: w.dv - __import__("datetime").timedelta(days=1, hours=1)), ("dv.day", lambda w: w.dv.day),
